@@ -412,8 +412,17 @@ func (c PageCase) toAppLang(labels map[string]string) *app.App {
 	a := &app.App{Menus: map[string]string{}}
 	a.Cfg.OutputSize = c.Size
 	a.Cfg.MenuSeparator = c.Sep
-	a.Nodes = []app.Node{{Name: "root", Tpl: "top", Code: []app.Instr{{Op: refdec.HALT},
-		{Op: refdec.INCMP, Sym: "lang", Sel: "l"}, {Op: refdec.INCMP, Sym: "main", Sel: "m"}, {Op: refdec.INCMP, Sym: ".", Sel: "*"}}},
+	// (the top node declares the same browse entries as the paged node — they only show on
+	// paged content — so that the browse configuration never changes along the way)
+	var browse []app.Instr
+	if c.Next != nil {
+		browse = append(browse, app.Instr{Op: refdec.MNEXT, Sym: refdec.BS(c.Next.Label), Sel: refdec.BS(c.Next.Sel)})
+	}
+	if c.Prev != nil {
+		browse = append(browse, app.Instr{Op: refdec.MPREV, Sym: refdec.BS(c.Prev.Label), Sel: refdec.BS(c.Prev.Sel)})
+	}
+	a.Nodes = []app.Node{{Name: "root", Tpl: "top", Code: append(browse, app.Instr{Op: refdec.HALT},
+		app.Instr{Op: refdec.INCMP, Sym: "lang", Sel: "l"}, app.Instr{Op: refdec.INCMP, Sym: "main", Sel: "m"}, app.Instr{Op: refdec.INCMP, Sym: ".", Sel: "*"})},
 		{Name: "lang", Tpl: "", Code: []app.Instr{{Op: refdec.LOAD, Sym: "setlang", Num: 0}, {Op: refdec.MOVE, Sym: "_"}}}}
 	a.Syms = append(a.Syms, app.Sym{Name: "setlang", Results: []app.Result{{Content: "nor", FlagSet: []uint32{7}}}})
 	c.addNode(a, "main", "", "bk")
